@@ -135,6 +135,25 @@ def select_cases(ctx: Ctx, prefixes, n_quick, n_thorough):
     return cases, jr
 
 
+def reencode_sig(c, cl):
+    """signature of a C15 re-encoding violation (what the known findings F08c/d and F28 are matched on)"""
+    bad = [(v['kind'], v['kept']) for v in c['variants'] if v['clause_kept'] == cl and v['kept'] != c['ref']['kept']]
+    diff = set()
+    for _, kept in bad:
+        diff |= set(kept) ^ set(c['ref']['kept'])
+    # F08d: the selections differ only by quantitative features whose recomputed correlation distance is ~0 (the library treats an
+    # exact 0.0 as undefined, and whether the floating-point value is exactly 0.0 depends on the order of the rows / columns)
+    zero_only = bool(diff) and all(0 < f <= len(c['tie_m']) and c['tie_g'][f - 1] == 1 and 0 <= c['tie_m'][f - 1] <= 3 for f in diff)
+    sig = {'driver': 'selector.reencode_case', 'clause': cl, 'task': c['meta']['task'], 'measures': c['meta']['measures'],
+           'default_regression_quantitative': c['meta']['default_regression_quantitative'],
+           'differs_only_by_zero_distance_features': zero_only and c['meta']['default_regression_quantitative'],
+           # F28: several measures evaluated together, the selections differ only by features that have an information-identical
+           # twin (exactly tied under one of the measures)
+           'differs_only_by_twins_under_several_measures': bool(diff) and c['meta']['measures'] == 'multi'
+           and all(f in (c.get('twins') or []) for f in diff)}
+    return bad, sig
+
+
 def replay_select(ctx: Ctx, rep: dict, prefixes):
     from ..core import use_repo
     use_repo()
@@ -160,7 +179,9 @@ def replay_select(ctx: Ctx, rep: dict, prefixes):
     ctx.traces += 1
     ctx.evaluations += 1
     for cl in jr.verdicts[0]:
-        if cl.startswith(tuple(prefixes)):
+        if cl.startswith(tuple(prefixes)) and rep['driver'] == 'selector.reencode_case':
+            ctx.violations.append(Violation(clause=cl, what=f'replayed case still fails: {jr.verdicts[0]}', sig=reencode_sig(c, cl)[1], replay=rep))
+        elif cl.startswith(tuple(prefixes)):
             ctx.violations.append(Violation(clause=cl, what=f'replayed case still fails: {jr.verdicts[0]}',
                                             sig={'driver': rep['driver'], 'clause': cl, 'task': c['meta']['task'], 'measures': c['meta']['measures'],
                                                  'explained_by_zero_distance': bool(jr.info.get(0, {}).get('zero_distance')) and c['meta']['default_regression_quantitative'],
